@@ -988,6 +988,20 @@ func (fa *FA) entailsOnEdgesAssuming(at ssa.Instruction, goal *Lin, depth int, a
 					}
 				}
 			}
+			// a condition that is a phi of b (a boolean computed differently on each way in, e.g. `invalid = bsp != 0`
+			// in one branch and `invalid = bsp < 0` in the other) stands, on this edge, for the value flowing in on it
+			for pi, bp := range b.Preds {
+				if bp != pr {
+					continue
+				}
+				for _, cd := range append([]Cond{}, cs...) {
+					nc := normCond(cd)
+					if ph, ok := nc.V.(*ssa.Phi); ok && ph.Block() == b && pi < len(ph.Edges) {
+						cs = append(cs, normCond(Cond{ph.Edges[pi], nc.Truth}))
+					}
+				}
+				break
+			}
 			all := append(append([]Cond{}, cs...), condsAt(pr)...)
 			if contradictory(all) {
 				continue
@@ -1006,5 +1020,22 @@ func (fa *FA) entailsOnEdgesAssuming(at ssa.Instruction, goal *Lin, depth int, a
 		}
 		return true
 	}
-	return pathOK(at.Block(), append([]Cond{}, assume...), 0)
+	init := append([]Cond{}, assume...)
+	init = append(init, condsAtInstr(at)...)
+	// start from the block that tests the innermost dominating condition when `at` sits below a phi-valued test
+	return pathOK(at.Block(), init, 0) || pathFromPhiConds(fa, at, goal, init, depth, pathOK)
+}
+
+// pathFromPhiConds: when a dominating condition of `at` is a phi, restart the path analysis at the phi's block
+// (the facts between that block and `at` are the dominating conditions already in acc).
+func pathFromPhiConds(fa *FA, at ssa.Instruction, goal *Lin, acc []Cond, depth int, pathOK func(b *ssa.BasicBlock, acc []Cond, d int) bool) bool {
+	for _, cd := range acc {
+		nc := normCond(cd)
+		if ph, ok := nc.V.(*ssa.Phi); ok {
+			if pathOK(ph.Block(), acc, 0) {
+				return true
+			}
+		}
+	}
+	return false
 }
